@@ -70,6 +70,11 @@ def scenarios(quick):
     add("scan:after-abandoned-scan", comp(strs) + ["scanner 0 0", "scan target=s0 via=blocks blocks=5,9 nr=0.1.1 abandon=0 data=" + yv.hx(bufs[7][:14])],
         ["scan target=s0 via=mem data=" + yv.hx(bufs[8]), "scan target=s0 via=mem data=" + yv.hx(bufs[7]), "sdestroy 0"])
     add("scan:suspended-and-resumed", comp(strs) + ["scanner 0 0"], ["scan target=s0 via=blocks blocks=5,9 nr=0.1.1;0.2.1 data=" + yv.hx(bufs[7][:14]), "scan target=s0 via=mem data=" + yv.hx(bufs[8]), "sdestroy 0"])
+    # several candidates on the automaton state that is flushed after the LAST byte of a block (strings sharing an atom / one atom a suffix of another): an
+    # allocation failure while verifying any of them must surface (or the results must be complete)
+    eob = ["compiler 0", "add 0 - " + yv.hx('rule first { strings: $a = /x[0-9]abcd/ condition: $a } rule second { strings: $b = /[0-9]a?bcd/ condition: $b } '
+                                             'rule third { strings: $c = /7abc[d-e]/ $d = "abcd" condition: $c and $d }'), "getrules 0 0", "cdestroy 0"]
+    add("scan:end-of-block-candidates", eob, ["scanner 0 0", "scan target=s0 via=mem data=" + yv.hx(b"q" * 90 + b"x7abcd"), "scan target=s0 via=blocks blocks=48,48 data=" + yv.hx(b"q" * 42 + b"x7abcd" + b"z" * 42 + b"x7abcd"), "sdestroy 0"])
     add("init-fini", [], ["fini", "init"])
     return S
 
